@@ -141,11 +141,11 @@ LEVEL_TEXT = {
     "C11": "Seeded exploration comparing every scrubbed fragment with its simulator-built opposite-endian twin, with and without corruption. The fault dimension is thin (one deterministic transformation) and is kept because it interacts with corruption.",
     "C12": "Seeded exploration across 2-4 instances with re-sealed single-field edits, misdirected and damaged fragments; per-fragment and stripe verdicts compared with a reference validity predicate.",
     "C13": "Fault enumeration of the finite malformed-call grid inside live histories plus a seeded walk of the configuration box; refusal value, nothing retained, no sanitizer report, accepted instances complete a full cycle.",
-    "C14": "Seeded exploration of create/use/destroy histories (random, not the bounded-exhaustive depth-7 enumeration the property text also mentions - that would be model checking) against a registry set model, dead-descriptor uses on every entry point, counter wrap, canaries.",
-    "C15": "Seeded exploration with every input on read-only guarded pages and fresh-process canary digests at random points of mixed histories.",
+    "C14": "Seeded exploration of create/use/destroy histories (random, not the bounded-exhaustive depth-7 enumeration the property text also mentions - that would be model checking) against a registry set model, dead-descriptor uses on every entry point, counter wrap, sibling instances, hundreds to a thousand simultaneous instances, canaries; second pass on the -O2 build.",
+    "C15": "Seeded exploration with every input (data, fragments, fragment pointer lists, index lists) on read-only guarded pages and fresh-process canary digests at random points of mixed histories; second pass on the un-sanitized -O2 build (dirty heap); violations that need state left by earlier runs are replayed as run sequences.",
     "C16": "Seeded exploration of long fault-laden histories; exact ownership accounting of library allocations (zero at quiescence) with ASan for double free / use after free.",
     "C17": "Fault enumeration: each backend operation fails at each call position of a scripted workload (swept by run index) in two modes, plus random placements and dependency failures; rc<0, nothing retained, the repeated call succeeds.",
-    "C18": "Seeded exploration of interleavings: real threads released one at a time at lock, hook and API yield points by a seeded scheduler (random walk, PCT, bounded preemption); results compared with sequential truth, vector-clock race detector over annotated shared state. Sampling of schedules, not exhaustive enumeration.",
+    "C18": "Seeded exploration of interleavings: real threads released one at a time at lock, hook, dependency-primitive and API yield points by a seeded scheduler (random walk, sticky, PCT, bounded preemption; reader- or writer-preferring rwlock policy per run); results compared with sequential truth, vector-clock race detector over annotated shared state, deadlock and lock-leak verdicts; second pass: the same schedules on a ThreadSanitizer build of the library (atomics are yield points there). Sampling of schedules, not exhaustive enumeration.",
     "C19": "Seeded exploration of the ISA-L adapters over all k+m<=32 through a clean-room libisal with varied stub behaviour and injected inversion failures; relative to that stub.",
     "C20": "Seeded exploration of forced-check decodes with damaged subsets of the survivors; safety and availability oracles evaluated only when every delivered fragment is pristine or invalid under the reference.",
 }
